@@ -63,7 +63,8 @@ def run(run):
     for r, n in (("C08.R1", 2), ("C08.R2", 14), ("C08.R3", 5), ("C08.R4", 6), ("C08.R5", 2), ("C08.R6", 3)):
         run.floor(r, n)
     project = run.project
-    ev = sym.make_evaluator(project, ST, [])
+    ev = sym.make_evaluator(project, ST, [], inline_local=True, no_inline=("next_highest_power_of_2",))
+    ev.self_class = ST + ".StudyTiling"
     fields_a, fields_b = _object_states(run, ev)
     if fields_a is None:
         return
@@ -326,6 +327,9 @@ def _slices_spec(ev, image_x, image_y, tile_x, tile_y, width, height):
         "iy": e2("slice(iy, iy + h)", **k), "ix": e2("slice(ix, ix + w)", **k), "bx": e2("slice(tx, tx + w)", **k),
         "by_down": e2("slice(ty, ty + h)", **k),
         "by_up": ("call", ("sym", "slice"), (e2("255 - ty", **k), ("ite", sym.cmp("Eq", e2("255 - ty - h", **k), num(-1)), sym.NONE, e2("255 - ty - h", **k)), num(-1)), ()),
+        # the stop value is >= -1 (ty + h <= 256 by R2), so `== -1`, `< 0` and `<= -1` guard the same case
+        "by_up_alt": [("call", ("sym", "slice"), (e2("255 - ty", **k), ("ite", g, sym.NONE, e2("255 - ty - h", **k)), num(-1)), ())
+                      for g in (sym.cmp("Lt", e2("255 - ty - h", **k), num(0)), sym.cmp("LtE", e2("255 - ty - h", **k), num(-1)))],
     }
 
 
@@ -363,8 +367,13 @@ def _r3_tile_image(run, ev):
         else:
             run.undecided("C08.R3", f, e.node, "fill argument %d (%s_idx): %s" % (i, nm, termdiff.describe(d)), kind="slice-structure-" + nm, arg=nm)
     by = a[3]
-    want_by = ("ite", inv, spec["by_up"], spec["by_down"])
+    want_by = sym.mk_ite(inv, spec["by_up"], spec["by_down"])
     d = termdiff.diff(by, want_by)
+    for alt in spec.get("by_up_alt", []):
+        if d[0] != "equal":
+            d2 = termdiff.diff(by, sym.mk_ite(inv, alt, spec["by_down"]))
+            if d2[0] == "equal":
+                d = d2
     if d[0] == "equal":
         run.holds("C08.R3", f, e.node, "by_idx = reversed slice(255-ty, 255-ty-h (None if -1), -1) for bottom-up formats, slice(ty, ty+h) otherwise", arg="by")
     elif d[0] == "definite":
